@@ -46,7 +46,8 @@ Inductive val :=
 Inductive ty :=
 | TLeaf (l : ltype)
 | TRef (c : cid)
-| TArr (elt : ty) (mname : text).        (* Array(elt); mname = the key of its one-entry _type_info *)
+| TArr (elt : ty) (mns mname : text).    (* Array(elt); mname = the key of its one-entry _type_info, mns = the namespace the
+                                             Array class was given when the interface resolved it (both copied from the class that exists) *)
 
 Inductive fkind := KElem | KAttr | KData.   (* ordinary member | XmlAttribute(T) | XmlData(T) *)
 
@@ -94,7 +95,7 @@ Fixpoint ty_ok (n : nat) (t : ty) : bool :=
   match t with
   | TLeaf _ => true
   | TRef c => Nat.ltb c n
-  | TArr e _ => ty_ok n e
+  | TArr e _ _ => ty_ok n e
   end.
 Fixpoint text_mem (x : text) (l : list text) : bool :=
   match l with [] => false | y :: r => text_eqb x y || text_mem x r end.
